@@ -25,6 +25,7 @@ theorem keygen_bound (k : Consts Val) (f : Func Val) (p0 : Param Val) (ps : List
     (ign : List (Ign Val)) (c : PCall Val) : keygen k f ign c = keygen k (unbind f) ign c := by
   unfold keygen
   rw [kSignature_bound f p0 ps h]
+  simp [unbind]
 
 /-- CPython's binding of a bound method: the instance, then the binding of the remaining parameters -/
 theorem bind_bound_eq (self : Val) (f : Func Val) (p0 : Param Val) (ps : List (Param Val)) (c : PCall Val) (b : Binding Val)
